@@ -137,7 +137,7 @@ Proof.
   - destruct V as ((Hopt & HO) & H64 & NM & Hc & GD & IS).
     pose proof (rh_wf _ _ _ _ _ _ R) as W.
     destruct (torn_open_gen_names p image name uhdr popt ho cb l c W NM Hc Hh H64 Hp GD IS Hopt HO)
-      as (fs' & s' & k & E & Hk & LE & MX & R' & _ & _ & M1 & M2).
+      as (fs' & s' & k & E & Hk & LE & MX & R' & _ & _ & M1 & M2 & _).
     rewrite E. eexists. split; [reflexivity|].
     rewrite (complete_unique c l k Hk LE MX).
     split; [exact R'|]. cbn [snd]. split; assumption.
